@@ -50,7 +50,7 @@ class MethodTranslator(Translator):
                     if isinstance(node.ctx, ast.Store) and node.attr not in state:
                         raise Unsupported(f"{cls_name}.{meth_name} assigns read-only self.{node.attr}")
                     seen.add(node.attr)
-                    return ast.copy_location(ast.Name(id=node.attr, ctx=node.ctx), node)
+                    return ast.copy_location(ast.Name(id="self_" + node.attr, ctx=node.ctx), node)
                 return s.generic_visit(node)
 
             def visit_Return(s, node):
@@ -59,7 +59,7 @@ class MethodTranslator(Translator):
                     return node
                 if node.value is None:
                     raise Unsupported("bare return in state-passing method")
-                elts = [node.value] + [ast.Name(id=f, ctx=ast.Load()) for f in state]
+                elts = [node.value] + [ast.Name(id="self_" + f, ctx=ast.Load()) for f in state]
                 return ast.copy_location(ast.Return(value=ast.Tuple(elts=elts, ctx=ast.Load())), node)
 
             def visit_Raise(s, node):
@@ -67,7 +67,8 @@ class MethodTranslator(Translator):
 
         fdef = RW().visit(fdef)
         args = [a for a in fdef.args.args if a.arg != "self" and a.arg not in drop_args]
-        fdef.args.args = [ast.arg(arg=f, annotation=ast.Name(id="int", ctx=ast.Load())) for f in fields] + args
+        # fields are renamed self_<f> so that they cannot collide with the method's own arguments / locals
+        fdef.args.args = [ast.arg(arg="self_" + f, annotation=ast.Name(id="int", ctx=ast.Load())) for f in fields] + args
         fdef.args.defaults = []
         fdef.decorator_list = []
         name = as_name or meth_name
